@@ -118,7 +118,7 @@ func genScript(g *fact.Gen) {
 	const ts = "testscript/testscript.go"
 	const cmdgo = "testscript/cmd.go"
 	// the tokenizer itself, translated statement by statement (harness/internal/go2lean)
-	g.TranslateModule("ScriptGo", ts, []string{"TestScript.parse"}, "script",
+	g.TranslateModule("ScriptGo", ts, []string{"TestScript.expand/func1", "TestScript.parse"}, "script",
 		[]string{"GIV.GoLib", "GIV.Model.ScriptParse"}, "GIV.Go.Script", filepath.Join(pinnedDir(), "ScriptGo.lean"))
 
 	emitU8List := func(name, doc string, pinned []byte, v []byte, ok bool, why string) {
